@@ -7,10 +7,10 @@ CONSTANTS
   EmitEvery = 1500
   PlanSet <- Plans
   PresChoices <- Pres
-  SelSet <- Sels3
+  SelSet <- Sels2
   KBSet = {"nokb", "kb"}
   ResSet = {"byiss"}
-  AudNonceSet = {"none", "ok", "aud2", "n2", "onlyaud", "onlynonce", "npre", "next", "apre", "aext"}
+  AudNonceSet = {"none", "ok", "aud2", "n2", "onlyaud", "npre"}
   ForgedSet = {"new"}
   Forged <- ForgedSel
   WantOther = TRUE
